@@ -200,6 +200,58 @@ void vf_harness(void) { text_probe(); VF_CANARY(); }
 )
 UNITS += [text_bom]
 
+# ---- File::put(data): the file is (re)created with exactly these bytes - for an empty array too (an existing file is truncated, a missing one created)
+file_put = Unit(
+    'File_put', 'C17',
+    cuts=[Cut('put', FC, r'^bool File::put\(const ByteArray& data\)\s*$',
+              rules=[(r'!_file && !open\(_path, WRITE\)', '!g_open && !VF_OPEN_WRITE()', None), (r'(?<![\w.>])write\(data\.data\(\), data\.length\(\)\) == data\.length\(\)', 'VF_WRITE(g_n) == g_n', None),
+                     (r'data\.length\(\)', 'g_n', None), (r'return ([^;]*);', r'{ g_ret = (\1); return; }', None)])],
+    text=PRE + r'''
+int g_n, g_open, g_opened_for_write, g_written, g_ret;
+static bool VF_OPEN_WRITE(void) { if (nondet_bool()) return false; g_open = 1; g_opened_for_write = 1; return true; }      /* open(path, WRITE): creates / truncates */
+static int VF_WRITE(int n) { __CPROVER_assert(g_open, "write on an open file"); int r = nondet_int(); __CPROVER_assume(0 <= r && r <= n); g_written = r; return r; }
+void File_put(void)
+__CPROVER_requires(0 <= g_n && g_n <= 1000000000 && (g_open == 0 || g_open == 1) && g_opened_for_write == 0 && g_written == 0 && g_ret == -1)
+/* success means: the file was open for writing (created / truncated by this call unless it was open already) and all n bytes - also n == 0 - went into it */
+__CPROVER_ensures(g_ret == 1 ==> ((__CPROVER_old(g_open) || g_opened_for_write) && g_written == g_n))
+__CPROVER_ensures(g_ret == 0 || g_ret == 1)
+__CPROVER_assigns(g_open, g_opened_for_write, g_written, g_ret)
+@@put@@
+void vf_harness(void) { File_put(); VF_CANARY(); }
+''',
+    entry='File_put',
+    desc='File::put for ANY size including 0: returns true only after the file was opened for writing (created / truncated) and every byte was written',
+    functions=['File::put'], trusted=['File::open(WRITE) creates or truncates; File::write returns the count written'],
+)
+
+# ---- TextFile << const char*: the characters are written as they are - the text is data, never a printf format
+tf_stream = Unit(
+    'TextFile_stream_cstr', 'C17',
+    cuts=[Cut('op', TF, r'^TextFile& TextFile::operator<<\(const char\* x\)\s*$',
+              rules=[(r'!_file && !open\(WRITE\)', '!g_open && !VF_OPEN()', None), (r'fputs\(x, _file\);', 'VF_PUTS(x);', None), (r'fwrite\(x, 1, ([^,]+), _file\)', r'VF_WRITE(x, \1)', None),
+                     (r'(?<![\w.>])printf\(([^;]*)\);', r'VF_PRINTF(\1);', None), (r'fprintf\(_file, ([^;]*)\);', r'VF_PRINTF(\1);', None), (r'return \*this;', 'return;', None)])],
+    text=PRE + r'''
+#include <string.h>
+int g_open, g_verbatim, g_as_format; const char* g_x;
+static bool VF_OPEN(void) { if (nondet_bool()) return false; g_open = 1; return true; }
+static void VF_PUTS(const char* s) { if (s == g_x) g_verbatim++; }
+static void VF_WRITE(const char* s, int n) { if (s == g_x) g_verbatim++; }
+/* printf-style output: the first argument is a FORMAT; passing the text itself there makes every '%' in it a conversion */
+#define VF_PRINTF(...) vf_printf(__VA_ARGS__, (const char*)0)
+static void vf_printf(const char* fmt, ...) { if (fmt == g_x) g_as_format = 1; else g_verbatim++; }
+void stream_cstr(const char* x)
+__CPROVER_requires(__CPROVER_is_fresh(x, 8) && g_x == x && (g_open == 0 || g_open == 1) && g_verbatim == 0 && g_as_format == 0)
+__CPROVER_ensures(!g_as_format && (g_open ==> g_verbatim == 1))
+__CPROVER_assigns(g_open, g_verbatim, g_as_format)
+@@op@@
+void vf_harness(void) { const char* x; stream_cstr(x); VF_CANARY(); }
+''',
+    entry='stream_cstr',
+    desc='TextFile::operator<<(const char*): the text is written verbatim once (fputs / fwrite / printf("%s", x)), never used as a printf format',
+    functions=['TextFile::operator<<(const char*)'], trusted=['fputs / fwrite write the bytes; the first argument of printf is a format'],
+)
+UNITS += [file_put, tf_stream]
+
 # replay: turn units have no direct native input; the driver's battery (lines of every length 0..1100 with LF / CRLF / lone CR / no final newline, byte round trips around
 # 255 and 65536, write - size() - write - close - append histories on one object, the three BOM encodings) runs on the real library instead
 for _u in UNITS:
